@@ -76,12 +76,7 @@ impl From<TracePos> for usize { fn from(v: TracePos) -> usize { v.0 as usize } }
 pub struct DataKeeper { pub result_len: Ghost<nat> }
 impl DataKeeper {
     pub open spec fn rlen(&self) -> nat { self.result_len@ }
-    // contract proved on the real text in par_builder.rs (DataKeeper::result_trace_next_pos)
-    #[verifier::external_body]
-    pub fn result_trace_next_pos(&self) -> (r: TracePos)
-        requires self.rlen() <= u32::MAX
-        ensures r.0 == self.rlen()
-    { unimplemented!() }
+//@ stub par_builder :: DataKeeper::result_trace_next_pos
 }
 
 //@ lift crates/air-lib/interpreter-data/src/executed_state.rs :: struct SubTraceDesc
